@@ -1,6 +1,6 @@
 (* Dispatcher of the extracted model binary: one S-expression in, one out. *)
 From Coq Require Import List String.
-From EinxV Require Import Base.Sexp Model.ParseIO Model.LoopIO Model.IrIO.
+From EinxV Require Import Base.Sexp Model.ParseIO Model.LoopIO Model.IrIO Model.OptIO.
 Import ListNotations.
 Open Scope string_scope.
 
@@ -10,6 +10,7 @@ Definition run (s : sexp) : sexp :=
     if String.prefix "parse" cmd then run_parse cmd arg
     else if String.prefix "plan_" cmd then run_loop cmd arg
     else if String.prefix "ir_" cmd then run_ir cmd arg
+    else if String.prefix "opt_" cmd then run_opt cmd arg
     else bad "unknown command"
   | _ => bad "expected (cmd arg)"
   end.
